@@ -510,22 +510,41 @@ func runCase(c Case) *vt.Outcome {
 	return o
 }
 
-// zeroLiteralPaths returns the paths P of the comparisons `P == false` of a filter expression.
-func zeroLiteralPaths(e dag.Expr, out *[][]string) {
+type falseCmp struct {
+	path []string
+	in   bool // `false in path` rather than `path == false`
+}
+
+// falseComparisons returns the comparisons `P == false` and `false in P` of a filter expression.
+func falseComparisons(e dag.Expr, out *[]falseCmp) {
 	switch e := e.(type) {
 	case *dag.BinaryExpr:
-		if e.Op == "==" {
-			if this, ok := e.LHS.(*dag.This); ok {
-				if lit, ok := e.RHS.(*dag.Literal); ok && lit.Value == "false" {
-					*out = append(*out, this.Path)
-				}
+		if this, ok := e.LHS.(*dag.This); ok && e.Op == "==" {
+			if lit, ok := e.RHS.(*dag.Literal); ok && lit.Value == "false" {
+				*out = append(*out, falseCmp{path: this.Path})
 			}
 		}
-		zeroLiteralPaths(e.LHS, out)
-		zeroLiteralPaths(e.RHS, out)
+		if this, ok := e.RHS.(*dag.This); ok && e.Op == "in" {
+			if lit, ok := e.LHS.(*dag.Literal); ok && lit.Value == "false" {
+				*out = append(*out, falseCmp{path: this.Path, in: true})
+			}
+		}
+		falseComparisons(e.LHS, out)
+		falseComparisons(e.RHS, out)
 	case *dag.UnaryExpr:
-		zeroLiteralPaths(e.Operand, out)
+		falseComparisons(e.Operand, out)
 	}
+}
+
+func holdsNullBool(v zed.Value) bool {
+	found := false
+	v.Walk(func(typ zed.Type, body zcode.Bytes) error {
+		if body == nil && zed.TypeUnder(typ) == zed.TypeBool {
+			found = true
+		}
+		return nil
+	})
+	return found
 }
 
 // bufferFilterLossClass names the known class that explains why the ZNG
@@ -538,15 +557,19 @@ func bufferFilterLossClass(filter dag.Expr, lost []zed.Value) string {
 	if prog.AllOnlyNestedFieldName(lost, prog.SearchTerms(string(b))) {
 		return "search-fieldname-inside-container"
 	}
-	var paths [][]string
-	zeroLiteralPaths(filter, &paths)
-	if len(paths) > 0 {
+	var cmps []falseCmp
+	falseComparisons(filter, &cmps)
+	if len(cmps) > 0 {
 		all := true
 		for _, v := range lost {
 			hit := false
-			for _, p := range paths {
+			for _, c := range cmps {
 				// (a null record makes its fields null as well)
-				if f := expr.NewDottedExpr(zed.NewContext(), p).Eval(expr.NewContext(), v); f.IsNull() && zed.TypeUnder(f.Type()) == zed.TypeBool {
+				f := expr.NewDottedExpr(zed.NewContext(), c.path).Eval(expr.NewContext(), v)
+				if !c.in && f.IsNull() && zed.TypeUnder(f.Type()) == zed.TypeBool {
+					hit = true
+				}
+				if c.in && !f.IsError() && holdsNullBool(f) {
 					hit = true
 				}
 			}
